@@ -26,4 +26,9 @@ PROPS = {
         "trusted": ["badger, BLS, Go runtime and scheduler"],
         "assumptions": ["op_wf: histories of well-formed fault-free requests; cfg_wf: every account can sign; the proposal clause is read with the same < 2^63 bound as the attestation clause (DESIGN.md 5 C09)"],
     },
+    "C10": {
+        "relation": "Corr.CheckImport.check_import (exit status and resulting database of the real binary's --import-slashing-protection equal import_cmd of the repaired model variant) - ties C10_import_step / C10_history to the code",
+        "trusted": ["JSON decoding and strconv.ParseInt are modelled from the decoded structure on (the harness applies ParseInt itself to produce the model's numbers)", "viper/pflag configuration loading of the binary", "badger"],
+        "assumptions": ["icfg_fixed: the repaired import (per-field maxima, repeated keys accumulate, negative numbers rejected)"],
+    },
 }
